@@ -439,9 +439,52 @@ def run_bounded(c, rec):
             estimate=xm_arr, better=best.x, value_at_estimate=-nlp(xm_arr), best=-best.fun)
 
 
+# ----------------------------------------------------------------------------- the problem object is not altered by sampling its prior
+
+@st.composite
+def prior_sampling_cases(draw, tier="quick"):
+    n = draw(st.integers(3, 6))
+    return {"n": n, "A": draw(gen.mat(n, n, -1, 1)), "data": draw(gen.vec(n, -2, 2)), "probe": draw(gen.vec(n, -1, 1)),
+            "prior": draw(st.sampled_from(["CMRF", "LMRF", "Gaussian"])), "scale": draw(st.sampled_from([0.3, 1.0])), "seed": draw(st.integers(0, 10 ** 6))}
+
+
+def run_prior_sampling(c, rec):
+    """MAP / sampling are requested from a problem object with a history: after the prior was sampled through the problem (for
+    priors without a direct sampler the problem sets up an auxiliary posterior), likelihood, posterior and MAP are what they were"""
+    import cuqi
+    n = c["n"]
+    if rec.classify({"prior": c["prior"]}, c["prior"] != "Gaussian"):
+        return
+    Am = A(c["A"]) + 2.0 * np.eye(n)
+    if c["prior"] == "CMRF":
+        x = cuqi.distribution.CMRF(np.zeros(n), c["scale"], name="x")
+    elif c["prior"] == "LMRF":
+        x = cuqi.distribution.LMRF(0.0, c["scale"], geometry=n, name="x")
+    else:
+        x = cuqi.distribution.Gaussian(np.zeros(n), c["scale"], name="x")
+    y = cuqi.distribution.Gaussian(cuqi.model.LinearModel(Am)(x), 0.1, name="y")
+    BP = must(lambda: cuqi.problem.BayesianProblem(y, x).set_data(y=A(c["data"])), "building the problem")
+    p = A(c["probe"])
+    lik0 = float(np.asarray(BP.likelihood.logd(p)).reshape(-1)[0])
+    post0 = float(np.asarray(BP.posterior.logd(p)).reshape(-1)[0])
+    np.random.seed(c["seed"] % (2 ** 31))
+    try:
+        refused, S = refuses(lambda: BP.sample_prior(6))
+    finally:
+        np.random.seed()
+    if refused:
+        rec.count("sample_prior_refused:" + type(S).__name__)
+    lik1 = float(np.asarray(BP.likelihood.logd(p)).reshape(-1)[0])
+    post1 = float(np.asarray(BP.posterior.logd(p)).reshape(-1)[0])
+    require(close(lik1, lik0, 1e-12) and close(post1, post0, 1e-12), "after sample_prior() the problem's likelihood / posterior are no longer those of the "
+            "problem (a later MAP or posterior sampling would belong to another problem)", likelihood_before=lik0, likelihood_after=lik1,
+            posterior_before=post0, posterior_after=post1, prior=c["prior"])
+
+
 SUBCHECKS = [
     SubCheck("C15/linear_gaussian", run_linear, strategy=lg_cases, n={"quick": 2000, "thorough": 15000}, shards={"quick": 8, "thorough": 16}),
     SubCheck("C15/nonlinear_map", run_nonlinear, strategy=nl_cases, n={"quick": 120, "thorough": 3000}, shards={"quick": 8, "thorough": 16},
              shrink=False),
     SubCheck("C15/bounded_prior_map", run_bounded, strategy=bounded_cases, n={"quick": 120, "thorough": 2000}, shards={"quick": 2, "thorough": 8}, shrink=False),
+    SubCheck("C15/problem_history", run_prior_sampling, strategy=prior_sampling_cases, n={"quick": 16, "thorough": 200}, shards={"quick": 8, "thorough": 16}, shrink=False),
 ]
